@@ -53,3 +53,33 @@ Example frame_tight :
   (* and a refused call of a node-touching command leaves the nodes alone as well *)
   active (fst (step b (CBind 7))) = active b /\ snd (step b (CBind 7)) = kInvalidLabel.
 Proof. cbv zeta. repeat split; vm_compute; congruence. Qed.
+
+(* ------------------------------------------------------------------ the frame conditions lifted to whole command sequences *)
+Theorem run_frame : forall cs b,
+  let b' := BuilderModel.run b cs in
+  regsize b' = regsize b /\
+  (forallb (fun c => negb (touches_counters c)) cs = true -> nlabels b' = nlabels b /\ nsections b' = nsections b) /\
+  (forallb (fun c => negb (touches_oneshot c)) cs = true -> p_opts b' = p_opts b /\ p_exsig b' = p_exsig b /\ p_exid b' = p_exid b /\ p_comment b' = p_comment b) /\
+  (forallb (fun c => negb (touches_func c)) cs = true -> cur_func b' = cur_func b /\ lpool b' = lpool b /\ gpool b' = gpool b) /\
+  (forallb (fun c => negb (touches_nodes c)) cs = true -> active b' = active b /\ cursor b' = cursor b /\ pool b' = pool b /\ links b' = links b /\ dirty b' = dirty b).
+Proof.
+  induction cs as [|c cs IH]; intros b; cbn [BuilderModel.run forallb].
+  - repeat split; reflexivity.
+  - destruct (step_frame b c) as (R & C1 & C2 & C3 & C4). destruct (IH (fst (step b c))) as (R' & D1 & D2 & D3 & D4).
+    split; [congruence|].
+    split; [intros H; apply andb_prop in H; destruct H as [H1 H2]; apply negb_true_iff in H1; destruct (C1 H1) as (?&?), (D1 H2) as (?&?); split; congruence|].
+    split; [intros H; apply andb_prop in H; destruct H as [H1 H2]; apply negb_true_iff in H1; destruct (C2 H1) as (?&?&?&?), (D2 H2) as (?&?&?&?); repeat split; congruence|].
+    split; [intros H; apply andb_prop in H; destruct H as [H1 H2]; apply negb_true_iff in H1; destruct (C3 H1) as (?&?&?), (D3 H2) as (?&?&?); repeat split; congruence|].
+    intros H; apply andb_prop in H; destruct H as [H1 H2]; apply negb_true_iff in H1; destruct (C4 H1) as (?&?&?&?&?), (D4 H2) as (?&?&?&?&?); repeat split; congruence.
+Qed.
+
+(* non-vacuity: a sequence of one-shot setters and a refused emit leaves counters, function state and all node storage alone, while the
+   one-shot state does change; the same sequence followed by an align does touch the node list *)
+Example run_frame_example :
+  let cs := [CSetOptions 5; CSetComment (Some [65]); CEmitRejected 26; CSetExtra 1 2] in
+  let b := init_state 8 in
+  forallb (fun c => negb (touches_nodes c)) cs = true /\ forallb (fun c => negb (touches_counters c)) cs = true /\
+  active (BuilderModel.run b cs) = active b /\ nlabels (BuilderModel.run b cs) = nlabels b /\
+  p_exsig (BuilderModel.run b cs) <> p_exsig b /\
+  active (BuilderModel.run b (cs ++ [CAlign 0 16])) <> active b.
+Proof. cbv zeta. repeat split; vm_compute; congruence. Qed.
